@@ -250,3 +250,63 @@ func AttrCellArgs() []*Args {
 	}
 	return out
 }
+
+// CallCells are fixed programs exercising chains of component calls: which
+// component receives which block, however deep the chain, whether or not an
+// intermediate component has a slot of its own.
+func CallCells(prefix string) []*Program {
+	var out []*Program
+	n := 0
+	text := func(s string) *Node { return &Node{Kind: KText, Text: s, Before: SepNL} }
+	elem := func(name string, kids ...*Node) *Node {
+		for _, k := range kids {
+			k.Before = SepNone
+		}
+		return &Node{Kind: KElem, Name: name, Before: SepNL, Kids: kids}
+	}
+	for _, aSlot := range []string{"none", "before", "after", "twice"} {
+		for _, aCalls := range []string{"none", "noblock", "block", "passes-slot", "legacy"} {
+			for _, mainBlock := range []bool{false, true} {
+				n++
+				p := &Program{Name: fmt.Sprintf("%s%d", prefix, n)}
+				b := &mxBuilder{p: p}
+				// B: innermost callee with a slot
+				B := &Component{Name: p.Name + "c2", Callee: true, End: SepNL, Body: []*Node{
+					elem("i", &Node{Kind: KText, Text: "B"}), {Kind: KSlot, Before: SepNone}, text("b-end")}}
+				// A: intermediate callee
+				A := &Component{Name: p.Name + "c1", Callee: true, End: SepNL}
+				slot := func() *Node { return &Node{Kind: KSlot, Before: SepNL} }
+				if aSlot == "before" || aSlot == "twice" {
+					A.Body = append(A.Body, slot())
+				}
+				A.Body = append(A.Body, elem("b", &Node{Kind: KText, Text: "A"}))
+				arg := func(s string) *SExpr { return b.sx(`"`+s+`"`, func(*Env) string { return s }) }
+				switch aCalls {
+				case "noblock", "legacy":
+					A.Body = append(A.Body, &Node{Kind: KCall, Before: SepNL, Callee: B, ArgS: arg("x"), Legacy: aCalls == "legacy"})
+				case "block":
+					A.Body = append(A.Body, &Node{Kind: KCall, Before: SepNL, Callee: B, ArgS: arg("x"), HasBlock: true, End: SepNL,
+						Kids: []*Node{elem("u", &Node{Kind: KText, Text: "inner"})}})
+				case "passes-slot":
+					A.Body = append(A.Body, &Node{Kind: KCall, Before: SepNL, Callee: B, ArgS: arg("x"), HasBlock: true, End: SepNL,
+						Kids: []*Node{slot()}})
+				}
+				if aSlot == "after" || aSlot == "twice" {
+					A.Body = append(A.Body, slot())
+				}
+				call := &Node{Kind: KCall, Before: SepNL, Callee: A, ArgS: arg("m")}
+				if mainBlock {
+					call.HasBlock, call.End = true, SepNL
+					call.Kids = []*Node{elem("em", &Node{Kind: KText, Text: "outer"})}
+				}
+				// a second, block-less call to B after A: must receive nothing
+				main := &Component{Name: p.Name, End: SepNL, Body: []*Node{text("start"), call,
+					{Kind: KCall, Before: SepNL, Callee: B, ArgS: arg("z")}, text("end")}}
+				p.Comps = []*Component{main, A, B}
+				p.Label = fmt.Sprintf("call-chain a-slot=%s a-calls=%s main-block=%v", aSlot, aCalls, mainBlock)
+				out = append(out, p)
+			}
+		}
+	}
+	return out
+}
